@@ -3,7 +3,7 @@
 From Coq Require Import NArith List String Bool Ascii.
 From Falco Require Import Base.TablesBase Model.ScopeMask Model.LintTables Model.LintOps.
 From Falco Require Import Gen.LintConsts Gen.LintVars Gen.LintFuncs Gen.RefVars Gen.RefFuncs Gen.InterpFuncs.
-From Falco Require Import Gen.ObsVars Gen.ObsFuncs Gen.ObsStmts Gen.ObsOps Gen.KnownGaps.
+From Falco Require Import Gen.ObsVars Gen.ObsFuncs Gen.ObsStmts Gen.ObsOps Gen.ObsWide Gen.KnownGaps.
 Import ListNotations.
 Local Open Scope N_scope.
 Local Open Scope string_scope.
@@ -16,6 +16,12 @@ Definition masks45 : list N := single_masks ++ pair_masks.
 Definition positions45 : list N := map N.of_nat (seq 0 45).
 Definition positions9 : list N := idx9.
 Definition mask_at (p : N) : N := nth (N.to_nat p) masks45 0.
+
+(* annotation masks of any width: the 84 three-scope masks and the nine-scope mask (quick tier observes these,
+   the thorough tier all 511) *)
+Definition popcount9 (m : N) : nat := List.length (filter (N.testbit m) idx9).
+Definition masks_1_511 : list N := map N.of_nat (seq 1 511).
+Definition three_scope_masks : list N := filter (fun m => Nat.eqb (popcount9 m) 3 || N.eqb m 511) masks_1_511.
 
 (* ---- variables: every leaf of the linter tree, wildcards instantiated, x {get,set,unset} *)
 Definition lint_var_flat : list (string * accessor) := vflatten_top lint_var_tree.
